@@ -313,6 +313,10 @@ def eval_rvalue(fr, rv, ctx):
         st = Struct([eval_operand(fr, part.split(':', 1)[1], ctx) for part in split_top(m.group(3))])
         st.kind = m.group(1).split('::')[-1]
         return st
+    if re.fullmatch(r'(?:[A-Za-z_]\w*::)*[A-Z]\w*', rv) and not rv.startswith(('move ', 'copy ', 'const ')):
+        e = Enum(rv.split('::')[-1], [])          # unit enum variant / unit struct
+        if e.variant in VRNAMES: e.idx = VRNAMES.index(e.variant)
+        return e
     m = re.fullmatch(r'PtrMetadata\((.*)\)', rv)
     if m:
         v = _d(eval_operand(fr, m.group(1), ctx))
@@ -750,6 +754,15 @@ def call(fr, callee, args, ctx):
         if meth == 'for_each':
             for x in items(): callc(args[1], x)
             return None
+        if meth == 'sum':
+            acc = None
+            for x in items():
+                x = _d(x)
+                acc = x if acc is None else acc + x
+            if acc is None:
+                mt = re.search(r'sum::<([ui])(\d+)>', c)
+                return BitVecVal(0, int(mt.group(2))) if mt else 0
+            return acc
         raise NotEncodable('iterator adapter ' + meth)
     if re.search(r'impl str>::repeat$', c):
         b_, n_ = _d(args[0]).b, args[1]
